@@ -286,6 +286,8 @@ func c17GenGraph(r *rng) (src string, ids []int, named map[string][]int) {
 	return b.String(), ids, named
 }
 
+var reFieldRef = regexp.MustCompile(`[A-Za-z]+: ![0-9]+`)
+
 func runC17(c *config) {
 	o := c.out
 	r := newRng(c.seed, "c17")
@@ -437,6 +439,28 @@ func runC17(c *config) {
 		bad, refs := c17Identity(m)
 		o.StatN("references_checked", refs)
 		text := m.String()
+		// a numbered specialised definition of the corpus is printed as it was written, field by field (the corpus
+		// is in the printer's own spelling; a reference stored under another field prints under that field)
+		// (field by field for the references: `key: !N` written under a key is printed under that key in the
+		// definition of the same ID; scalar fields at their default value may legitimately be left out)
+		printedDef := map[string]string{}
+		for _, l := range strings.Split(text, "\n") {
+			if sm := reSpecDef.FindStringSubmatch(l); sm != nil {
+				printedDef[sm[1]] = l
+			}
+		}
+		for _, line := range strings.Split(string(b), "\n") {
+			sm := reSpecDef.FindStringSubmatch(line)
+			if bad != "" || sm == nil {
+				continue
+			}
+			for _, kv := range reFieldRef.FindAllString(line, -1) {
+				if !strings.Contains(printedDef[sm[1]], kv) {
+					bad = fmt.Sprintf("definition !%s: the reference written as %q is not printed under that field: %s", sm[1], kv, printedDef[sm[1]])
+					break
+				}
+			}
+		}
 		if bad == "" {
 			m2, err := asm.ParseString(f, text)
 			if err != nil || m2.String() != text {
